@@ -601,7 +601,7 @@ def call_src(f, args, module):
 # generators
 # ----------------------------------------------------------------------------------------------
 ASCII = 'abcXYZ 1,-.'
-WIDE = ['é', 'é', '中', '\U0001F600', 'É']
+WIDE = ['é', 'e\u0301', '中', '\U0001F600', 'É', 'ß', 'ä']
 
 
 # values that are easily mistaken for "nothing there"
@@ -1577,7 +1577,7 @@ def evaluate(ck, pool, cases, direct_only=False):
         # regression guard: the pre-repair model differs here and grass answers as it did before the repair
         if d != m and d[0] != 'unsupported':
             ck.hist("now≠before-fix:" + (known_tag(f, args) or f))
-            if all(agrees(q, d) for q in per):
+            if not names_agree and all(agrees(q, d) for q in per):
                 failing.append({"call": text, "why": "grass answers as it did before the repair of K14a-K14d, not as documented",
                                 "documented": [m[0], show(m[1]) if m[0] == 'ok' else m[1]],
                                 "before_fix": [d[0], show(d[1]) if d[0] == 'ok' else d[1]],
@@ -1663,7 +1663,7 @@ def gen_law(g):
     name = r.choice(['length_append', 'length_append', 'nth_set_nth', 'nth_neg', 'length_join', 'join_sep', 'zip_length',
                      'slice_concat', 'length_slice', 'slice_neg', 'slice_neg', 'length_insert', 'index_slice', 'unquote_quote',
                      'eq_literal', 'eq_literal', 'eq_literal', 'has_key_index', 'has_key_index', 'get_set_path',
-                     'set_other_path', 'set_other_path', 'set_other_path',
+                     'set_other_path', 'set_other_path', 'set_other_path', 'case_ascii', 'deep_merge_get',
                      'get_merge', 'keys_merge', 'get_set', 'remove_get', 'deep_merge_get'])
     S = src
     if name == 'length_append':
@@ -1763,6 +1763,10 @@ def gen_law(g):
         s = g.string()
         ex = [S(s), f"unquote(quote({S(s)}))", f"quote(unquote({S(s)}))"]
         return name, ex, lambda vs: "blt law unquote_quote 3 " + " ".join(map(enc, vs)), None
+    if name == 'case_ascii':
+        s = g.string()
+        ex = [S(s), f"to-upper-case({S(s)})", f"to-lower-case({S(s)})"]
+        return name, ex, lambda vs: "blt law case_ascii 3 " + " ".join(map(enc, vs)), None
     if name == 'has_key_index':
         m = abc_map(g, 1) if r.random() < 0.4 else simple_map(g)
         k = r.choice([kk for kk, _ in m[1]] + [g.key_atom()] + ABC[:1])
@@ -1808,17 +1812,22 @@ def gen_law(g):
         ex = [f"map-get(map-remove({S(a)}, {S(k)}), {S(k)})", f"map-has-key(map-remove({S(a)}, {S(k)}), {S(k)})"]
         return name, ex, lambda vs: "blt law remove_get 2 " + " ".join(map(enc, vs)), None
     if name == 'deep_merge_get':
-        # make b overlap a
-        ps, seen = [], set()
-        for kk, vv in a[1]:
-            if r.random() < 0.6:
-                ps.append((kk, simple_map(g, 1) if vv[0] == 'map' and r.random() < 0.8 else simple_value(g, 0)))
-                seen.add(key_id(kk))
-        for kk, vv in b[1]:
-            if key_id(kk) not in seen:
-                seen.add(key_id(kk))
-                ps.append((kk, vv))
-        b = ('map', [(kk, num(7) if vv == ('map', []) else vv) for kk, vv in ps])
+        if r.random() < 0.6:
+            # the same key names at every level: overlap down to depth 3
+            a, b = abc_map(g, 3), abc_map(g, 3)
+            k = r.choice(ABC)
+        else:
+            # make b overlap a
+            ps, seen = [], set()
+            for kk, vv in a[1]:
+                if r.random() < 0.6:
+                    ps.append((kk, simple_map(g, 1) if vv[0] == 'map' and r.random() < 0.8 else simple_value(g, 0)))
+                    seen.add(key_id(kk))
+            for kk, vv in b[1]:
+                if key_id(kk) not in seen:
+                    seen.add(key_id(kk))
+                    ps.append((kk, vv))
+            b = ('map', [(kk, num(7) if vv == ('map', []) else vv) for kk, vv in ps])
         ga, gb = f"map-get({S(a)}, {S(k)})", f"map-get({S(b)}, {S(k)})"
         sub = f"if(ismap({ga}) and ismap({gb}), map.deep-merge(if(ismap({ga}), {ga}, ()), if(ismap({gb}), {gb}, ())), null)"
         ex = [f"map-has-key({S(b)}, {S(k)})", ga, gb, sub, f"map-get(map.deep-merge({S(a)}, {S(b)}), {S(k)})"]
